@@ -452,42 +452,29 @@ theorem tab_all_single (items : List Item) :
     subst hr
     simp
 
-/-- WHICH READER: a rendering shorter than the 3072 bytes the detectors look at, without tab, goes to the
-CSV reader iff its records (as the detectors see them, blanks included) all have the same number > 1 of
-fields, or those that are not `@param` lines do -/
+/-- WHICH READER: a rendering shorter than the 3072 bytes the detectors look at, that does not look like a
+sequence file and holds no "binary data byte", goes to the CSV reader iff its records (as the detectors see them,
+blanks included) all have the same number > 1 of fields, or those that are not `@param` lines do -/
 theorem whichReader_render (items : List Item) (hok : ∀ it ∈ items, it.OK)
     (hq : ∀ cs crlf, Item.row cs crlf ∈ items → ∀ c ∈ cs, (cellBytes c).head? ≠ some 34)
-    (htab : ∀ cs crlf, Item.row cs crlf ∈ items → 9 ∉ body cs ∧ (body cs).head? ≠ some 34)
-    (short : (render items).length < readLimit) (hbin : (render items).any isBinaryByte = false) :
+    (short : (render items).length < readLimit) (hseq : seqFormatDetect (render items) = false)
+    (hbin : (render items).any isBinaryByte = false) :
     whichReader (render items) =
       some (if widthsOK (items.filterMap Item.rawRecord) || ngsOK (items.filterMap Item.rawRecord) then .csv else .old) := by
   unfold whichReader
-  rw [List.take_of_length_le (Nat.le_of_lt short), hbin]
-  simp only [Bool.false_eq_true, if_false]
-  unfold whichText
-  rw [detectorInput_short _ short]
+  rw [List.take_of_length_le (Nat.le_of_lt short), detectorInput_short _ short]
   have e44 : csvAll false 44 (render items) = some (items.filterMap Item.rawRecord) := csvAll_render_raw items hok hq
-  have e9 : csvAll false 9 (render items) =
-      some (items.filterMap (fun it => match it with | .row cs _ => some [body cs] | _ => none)) := by
-    unfold csvAll
-    rw [rawLines_render items hok, List.map_map]
-    exact csvAll_render_tab items hok htab
   have s44 : svDetect 44 (render items) = some (widthsOK (items.filterMap Item.rawRecord)) := by
     unfold svDetect widthsOK; rw [e44]; rfl
-  have s9 : svDetect 9 (render items) = some false := by
-    unfold svDetect; rw [e9]
-    have := tab_all_single items
-    unfold widthsOK at this
-    simp only [Option.map_some]
-    exact congrArg some this
   have sn : ngsDetect (render items) = some (ngsOK (items.filterMap Item.rawRecord)) := by
     unfold ngsDetect ngsOK; rw [e44]; rfl
   show (do
+    if seqFormatDetect (render items) then return Kind.old
     if (← svDetect 44 (render items)) then return Kind.csv
-    if (← svDetect 9 (render items)) then return Kind.old
+    if (render items).any isBinaryByte then return Kind.old
     if (← ngsDetect (render items)) then return Kind.csv
     return Kind.old : Option Kind) = _
-  simp only [s44, s9, sn, bind, Option.bind, pure]
+  simp only [hseq, hbin, s44, sn, bind, Option.bind, pure]
   cases widthsOK (items.filterMap Item.rawRecord) <;> cases ngsOK (items.filterMap Item.rawRecord) <;> simp
 
 /-- ACCEPTED SHEET = DECLARED TABLE (CSV): whatever the rendering — blanks before fields, LF / CRLF, comment and
@@ -495,8 +482,8 @@ empty lines anywhere —, a sheet that the detectors see as CSV is read by `Read
 declared records -/
 theorem readSheetBytes_render (items : List Item) (hok : ∀ it ∈ items, it.OK)
     (hq : ∀ cs crlf, Item.row cs crlf ∈ items → ∀ c ∈ cs, (cellBytes c).head? ≠ some 34)
-    (htab : ∀ cs crlf, Item.row cs crlf ∈ items → 9 ∉ body cs ∧ (body cs).head? ≠ some 34)
-    (short : (render items).length < readLimit) (hbin : (render items).any isBinaryByte = false)
+    (short : (render items).length < readLimit) (hseq : seqFormatDetect (render items) = false)
+    (hbin : (render items).any isBinaryByte = false)
     (hcsv : (widthsOK (items.filterMap Item.rawRecord) || ngsOK (items.filterMap Item.rawRecord)) = true) :
     readSheetBytes (render items) = some (csvBranch (items.filterMap Item.record)) := by
   have hne : (render items).isEmpty = false := by
@@ -512,7 +499,7 @@ theorem readSheetBytes_render (items : List Item) (hok : ∀ it ∈ items, it.OK
       simp [widthsOK, ngsOK] at hcsv
     | cons _ _ => rfl
   unfold readSheetBytes
-  rw [hne, whichReader_render items hok hq htab short hbin, hcsv]
+  rw [hne, whichReader_render items hok hq short hseq hbin, hcsv]
   simp only [Bool.false_eq_true, if_false, if_true, bind, Option.bind, csvAll_render items hok]
   rfl
 
